@@ -78,6 +78,7 @@ package stream
 // ---- DLQHandlerNode (C06, C12) ---------------------------------------------
 
 //verif:func (*DLQHandlerNode).Run(n, ctx) (err)
+//verif:assume n.WindowSize >= 0 && n.WindowNackThreshold >= 0 because "the DLQ window settings come from the stored pipeline: pipeline.Service.UpdateDLQ refuses negative values (proved, C14 window-valid) and the provisioning config validation does the same"
 //verif:call[open-ctx] DLQHandler.Open requires called("(*forceStopper).start") && arg0 == result_of("(*forceStopper).start", 0)
 
 //verif:func (*DLQHandlerNode).ForceStop(n, ctx)
